@@ -31,6 +31,10 @@ pub struct GenCfg {
     pub canonical_responses_only: bool,
     /// declarations (user indices) chosen four times as often as the others
     pub boost: Vec<usize>,
+    /// declarations (user indices) never chosen
+    pub avoid: Vec<usize>,
+    /// if set, only these declarations (user indices) are chosen
+    pub only: Option<Vec<usize>>,
 }
 
 impl Default for GenCfg {
@@ -44,6 +48,8 @@ impl Default for GenCfg {
             p_empty_message: 1,
             canonical_responses_only: true,
             boost: Vec::new(),
+            avoid: Vec::new(),
+            only: None,
         }
     }
 }
@@ -162,9 +168,16 @@ pub fn gen_args(t: &mut Tape, params: &[Ty], cfg: &LitCfg) -> Vec<Lit> {
 
 /// Generates one unit in path context `ctx`; returns the unit.
 pub fn gen_unit(t: &mut Tape, ix: &Index, ctx: &[String], cfg: &GenCfg) -> Unit {
+    let allowed = |i: &usize| -> bool {
+        match ix.keys[*i].target {
+            Target::User(d) => !cfg.avoid.contains(&d) && cfg.only.as_ref().map(|o| o.contains(&d)).unwrap_or(true),
+            _ => cfg.only.is_none(),
+        }
+    };
     let non_common: Vec<usize> =
-        (0..ix.keys.len()).filter(|&i| !ix.keys[i].path[0].starts_with('*')).collect();
-    let common: Vec<usize> = (0..ix.keys.len()).filter(|&i| ix.keys[i].path[0].starts_with('*')).collect();
+        (0..ix.keys.len()).filter(|&i| !ix.keys[i].path[0].starts_with('*')).filter(allowed).collect();
+    let common: Vec<usize> =
+        (0..ix.keys.len()).filter(|&i| ix.keys[i].path[0].starts_with('*')).filter(allowed).collect();
     let relative: Vec<usize> = non_common
         .iter()
         .copied()
@@ -569,9 +582,28 @@ fn err_ok(spec: &ErrSpec, num: i16, text: &str) -> bool {
     }
 }
 
+type Memo = std::collections::HashSet<(usize, usize, u64, u64)>;
+
 fn rec(
+    pred: &[PEv], pi: usize, obs: &[Item], oi: usize, q: QueueModel, out: Vec<u8>, cfg: &MatchCfg,
+    best: &mut (usize, String), memo: &mut Memo,
+) -> bool {
+    // states that already failed (same position, same queue, same output) need not be retried:
+    // keeps the all-or-none alternatives from multiplying
+    let key = (pi, oi, crate::runner::hash_of(&format!("{:?}", q.q)), crate::runner::hash_of(&out));
+    if memo.contains(&key) {
+        return false;
+    }
+    let ok = rec_inner(pred, pi, obs, oi, q, out, cfg, best, memo);
+    if !ok {
+        memo.insert(key);
+    }
+    ok
+}
+
+fn rec_inner(
     pred: &[PEv], mut pi: usize, obs: &[Item], mut oi: usize, mut q: QueueModel, mut out: Vec<u8>, cfg: &MatchCfg,
-    best: &mut (usize, String),
+    best: &mut (usize, String), memo: &mut Memo,
 ) -> bool {
     let note = |best: &mut (usize, String), oi: usize, msg: String| {
         if oi >= best.0 {
@@ -604,7 +636,7 @@ fn rec(
             PEv::EndOfMessage => pi += 1,
             PEv::Barrier { skip_to } => {
                 // alternative 1: the rest of the message is dropped
-                if rec(pred, *skip_to, obs, oi, q.clone(), out.clone(), cfg, best) {
+                if rec(pred, *skip_to, obs, oi, q.clone(), out.clone(), cfg, best, memo) {
                     return true;
                 }
                 pi += 1;
@@ -670,7 +702,8 @@ fn rec(
 pub fn match_log(pred: &[PEv], log: &[Ev], cfg: &MatchCfg) -> Result<(), String> {
     let obs = items(log);
     let mut best = (0usize, String::new());
-    if rec(pred, 0, &obs, 0, QueueModel::new(cfg.qcap), Vec::new(), cfg, &mut best) {
+    let mut memo = Memo::new();
+    if rec(pred, 0, &obs, 0, QueueModel::new(cfg.qcap), Vec::new(), cfg, &mut best, &mut memo) {
         Ok(())
     }
     else {
